@@ -376,6 +376,11 @@ func (ts *TestScript) cmdSkip(neg bool, args []string) {
 	}
 	ts.cmdWait(false, nil)
 
+	if ts.failed {
+		// With ContinueOnError an earlier line has already failed:
+		// skipping now must not turn the failed run into a skipped one.
+		ts.t.FailNow()
+	}
 	if len(args) == 1 {
 		ts.t.Skip(args[0])
 	}
